@@ -137,10 +137,13 @@ func processBag(
 			return err
 		}
 		headerlen := binary.LittleEndian.Uint32(buf[:4])
+		if headerlen > math.MaxInt32 {
+			return fmt.Errorf("header length %d out of range", headerlen)
+		}
 
 		// header
 		if len(header) < int(headerlen) {
-			header = make([]byte, headerlen*2)
+			header = make([]byte, 2*uint64(headerlen))
 		}
 		_, err = io.ReadFull(activeReader, header[:headerlen])
 		if err != nil {
@@ -155,6 +158,9 @@ func processBag(
 			return err
 		}
 		datalen := binary.LittleEndian.Uint32(buf[4:8])
+		if datalen > math.MaxInt32 {
+			return fmt.Errorf("data length %d out of range", datalen)
+		}
 
 		// opcode
 		opcode, err := extractHeaderValue(headerData, headerOp)
@@ -165,7 +171,7 @@ func processBag(
 		if opcode[0] == OpBagChunk {
 			// data
 			if len(chunkData) < int(datalen) {
-				chunkData = make([]byte, datalen*2)
+				chunkData = make([]byte, 2*uint64(datalen))
 			}
 			_, err = io.ReadFull(activeReader, chunkData[:datalen])
 			if err != nil {
@@ -173,7 +179,7 @@ func processBag(
 			}
 		} else {
 			if len(data) < int(datalen) {
-				data = make([]byte, datalen*2)
+				data = make([]byte, 2*uint64(datalen))
 			}
 			_, err = io.ReadFull(activeReader, data[:datalen])
 			if err != nil {
